@@ -53,7 +53,7 @@ class CFG:
                     self.edge(p, n, l)
                 self.edge(n, self.exit)
                 preds = []
-            elif isinstance(st, ast.Raise):
+            elif isinstance(st, ast.Raise) or (isinstance(st, ast.Expr) and isinstance(st.value, ast.Call) and U(st.value.func) in ("sys.exit", "exit", "os._exit", "quit")):
                 n = self.new("raise", st)
                 for p, l in preds:
                     self.edge(p, n, l)
